@@ -1099,6 +1099,10 @@ structure GMSt where
   out : List (Key × MRef)
   /-- grid mapping variables that have become constructs (`ncvar_to_key`) -/
   seen : List String
+  /-- grid mapping variables that only gave a vertical reference its datum: referenced by the data
+  variable as well (fixes/C01-vertical-datum-grid-mapping-referenced.patch; the reader as it is does
+  not record them, `readFileOld`) -/
+  used : List String := []
   deriving Repr
 
 def isDatumParam (p : String × String) : Bool := Cfdm.Generated.datumParameters.contains p.1
@@ -1133,18 +1137,21 @@ def gmStep (nc : NcFile) (coords : List Entry) (danVars : List String) (st : GMS
     if cs0.isEmpty then
       let table := ((gv.attrs.lookup "grid_mapping_name").bind (fun n => Cfdm.Generated.coordRefCoordinates.lookup n)).getD []
       let inferred := table.flatMap (fun n => (coords.filter (fun e => stdName e.con.props == some n)).map Entry.key)
-      { vcrs := st.vcrs.map (fun v => (v.1, v.2.1, { v.2.2 with datum := datum }))
-        out := st.out ++ [mk inferred], seen := st.seen ++ [g.1] }
+      { st with vcrs := st.vcrs.map (fun v => (v.1, v.2.1, { v.2.2 with datum := datum }))
+                out := st.out ++ [mk inferred], seen := st.seen ++ [g.1] }
     else
       let r := gmVertical datum st.vcrs cs0 true
-      if r.2.2 then { vcrs := r.1, out := st.out ++ [mk r.2.1], seen := st.seen ++ [g.1] }
-      else { st with vcrs := r.1 }
+      if r.2.2 then { st with vcrs := r.1, out := st.out ++ [mk r.2.1], seen := st.seen ++ [g.1] }
+      else { st with vcrs := r.1, used := st.used ++ [g.1] }
 
 structure BRead where
   dans : List Entry
   refs : List (Key × MRef)
   /-- the variables referenced (`_reference`) -/
   referenced : List String
+  /-- the grid mapping variables that became coordinate references (the others named by the
+  attribute only gave a vertical reference its datum) -/
+  createdGM : List String := []
   deriving Repr
 
 def danRefs (e : Entry) : List String :=
@@ -1157,10 +1164,11 @@ def readB (nc : NcFile) (v : NcVar) (cons : List Entry) : BRead :=
   let fts := coords.filterMap (readFT nc v)
   let dans := fts.flatMap (·.dans)
   let gm := (nc.gridMapping.lookup v.name).getD []
-  let st := gm.foldl (gmStep nc coords (dans.filterMap (·.con.ncvar))) ⟨fts.map (fun x => (x.coord, x.ref)), [], []⟩
+  let st := gm.foldl (gmStep nc coords (dans.filterMap (·.con.ncvar))) ⟨fts.map (fun x => (x.coord, x.ref)), [], [], []⟩
   { dans := dans
     refs := st.vcrs.map (·.2) ++ st.out
-    referenced := dans.flatMap danRefs ++ st.seen }
+    referenced := dans.flatMap danRefs ++ st.seen ++ st.used
+    createdGM := st.seen }
 
 /-- `_create_field_or_domain(field_ncvar)`: the field. -/
 def readVar (nc : NcFile) (v : NcVar) : MField :=
@@ -1190,6 +1198,25 @@ def readFile (nc : NcFile) : List MField :=
   let referenced := sortKeys (names.filter (fun n => !(referencersOf nc n).isEmpty))
   let reinstated := reinstate (referencersOf nc) referenced referenced []
   let keep := names.filter (fun n => (referencersOf nc n).isEmpty || reinstated.contains n)
+  (sortKeys keep).filterMap (fun n => (nc.var? n).map (readVar nc))
+
+/-! ### The reader without fixes/C01-vertical-datum-grid-mapping-referenced.patch
+
+A grid mapping variable that only gave a vertical coordinate reference its datum is not recorded as
+referenced by the data variable: nothing else referring to it, it becomes a field of its own. -/
+
+def varRefsOld (nc : NcFile) (v : NcVar) : List String :=
+  let b := readB nc v (readVarA nc v).cons
+  varRefsA nc v ++ b.dans.flatMap danRefs ++ b.createdGM
+
+def referencersOfOld (nc : NcFile) (n : String) : List String :=
+  (nc.vars.filter (fun w => (varRefsOld nc w).contains n)).map (·.name)
+
+def readFileOld (nc : NcFile) : List MField :=
+  let names := nc.vars.map (·.name)
+  let referenced := sortKeys (names.filter (fun n => !(referencersOfOld nc n).isEmpty))
+  let reinstated := reinstate (referencersOfOld nc) referenced referenced []
+  let keep := names.filter (fun n => (referencersOfOld nc n).isEmpty || reinstated.contains n)
   (sortKeys keep).filterMap (fun n => (nc.var? n).map (readVar nc))
 
 /-! ## What is inside the model -/
